@@ -182,6 +182,16 @@ def assume(t: Term, facts: Any) -> Term:
     return t
 
 
+def mk_sub(base: Term, idx: Term) -> Term:
+    """subscript; a constant position of a loop element is the same thing as unpacking the element in the loop header"""
+    if base[0] == "e" and len(base) == 3 and is_int_const(idx) and idx[1] >= 0:
+        if base[2] == "elem":
+            return ("e", base[1], idx[1])
+        if isinstance(base[2], int) and not isinstance(base[2], bool):
+            return ("e", base[1], (base[2], idx[1]))
+    return ("s", base, idx)
+
+
 def conjuncts(t: Term) -> List[Term]:
     return list(t[1]) if t[0] == "and" else [t]
 
@@ -527,7 +537,7 @@ class Typer:
                 return t
         return None
 
-    def _value_type(self, val: ast.AST, fi: Optional[FuncInfo], m: Optional[Module] = None) -> Type:
+    def _value_type(self, val: ast.AST, fi: Optional[FuncInfo], m: Optional[Module] = None, _depth: int = 0) -> Type:
         m = m or (fi.module if fi else None)
         if m is None:
             return None
@@ -554,6 +564,24 @@ class Typer:
             return ("M", None, None)
         if isinstance(val, ast.JoinedStr):
             return P_STR
+        if isinstance(val, ast.Name) and fi is not None and _depth < 3:
+            # a local that is assigned once in the function: the type of what it was assigned
+            if val.id in fi.params:
+                return self.parse_ann(fi.param_annotation(val.id), fi.module, fi)
+            defs = []
+            for st in ast.walk(fi.node):
+                if isinstance(st, ast.Assign) and len(st.targets) == 1 and isinstance(st.targets[0], ast.Name) and st.targets[0].id == val.id:
+                    defs.append((None, st.value))
+                elif isinstance(st, ast.AnnAssign) and isinstance(st.target, ast.Name) and st.target.id == val.id:
+                    defs.append((st.annotation, st.value))
+            if len(defs) == 1:
+                ann, v = defs[0]
+                if ann is not None:
+                    t = self.parse_ann(ann, fi.module, fi)
+                    if t is not None:
+                        return t
+                if v is not None:
+                    return self._value_type(v, fi, m, _depth + 1)
         return None
 
     def elem_type(self, t: Type, role: Any = "elem") -> Type:
@@ -619,6 +647,7 @@ class Norm:
         self.var_types: Dict[Term, Type] = {}   # types of free-variable terms (by term)
         self.on_call: Optional[Callable[[Term, ast.Call, Scope, Any], Optional[Term]]] = None
         self.on_yield: Optional[Callable[[Term, ast.AST], None]] = None
+        self.on_property: Optional[Callable[[Term, Any, ast.AST, Scope], Optional[Term]]] = None   # read of a @property attribute
         self.guard_stack: List[Term] = []      # conditions under which the sub-expression being normalised is evaluated (and/or/if-else)
         self.comp_stack: List[Tuple[Term, Tuple[Term, ...]]] = []
         self._lv = 0
@@ -711,6 +740,15 @@ class Norm:
 
     def _call_type(self, t: Term, scope: Optional[Scope]) -> Type:
         f = t[1]
+        if f == ("g", "builtin:super") and not t[2] and scope is not None:
+            fn = scope.func
+            while fn is not None and fn.cls is None:
+                fn = fn.parent
+            if fn is not None and fn.cls is not None:
+                mro = self.repo.mro(fn.cls.qualname)
+                if len(mro) > 1 and mro[1] in self.repo.classes:
+                    return ("C", mro[1])
+            return None
         if f[0] == "g":
             ref = f[1]
             if ref in self.repo.classes:
@@ -847,6 +885,14 @@ class Norm:
             if hv is not None:
                 return hv
         base = self.norm(node.value, scope)
+        if self.on_property is not None and isinstance(node.ctx, ast.Load):
+            bt = self.type_of(base, scope)
+            if bt and bt[0] == "C":
+                mi = self.repo.find_method(bt[1], node.attr)
+                if mi is not None and "property" in mi.decorators:
+                    v = self.on_property(base, mi, node, scope)
+                    if v is not None:
+                        return v
         return self.mk_attr(base, node.attr, scope)
 
     def mk_attr(self, base: Term, attr: str, scope: Optional[Scope]) -> Term:
@@ -866,6 +912,10 @@ class Norm:
                     return ("a", base, attr)
         # Block.__getattr__ aliases
         bt = self.type_of(base, scope)
+        if bt and bt[0] in ("C", "K") and bt[1] in self.repo.classes:
+            cv = self.class_constant(bt[1], attr)
+            if cv is not None:
+                return cv
         if bt == ("C", "skepticoin.datatypes.Block"):
             al = self.typer.block_aliases()
             if attr in al and attr not in ("header", "transactions", "cached_hash"):
@@ -891,7 +941,7 @@ class Norm:
         idx = self.norm(sl, scope)
         if base[0] in ("tuple", "list") and is_int_const(idx) and -len(base[1]) <= idx[1] < len(base[1]):
             return base[1][idx[1]]
-        return ("s", base, idx)
+        return mk_sub(base, idx)
 
     def n_Tuple(self, node: ast.Tuple, scope: Scope) -> Term:
         return ("tuple", tuple(self.norm(e, scope) for e in node.elts))
@@ -1061,7 +1111,16 @@ class Norm:
                     xs.extend(x[1])
                 else:
                     xs.append(x)
-            return ("cat", tuple(xs))
+            # adjacent literal tuples / lists concatenate into one literal
+            merged: List[Term] = []
+            for x in xs:
+                if merged and x[0] in ("tuple", "list") and merged[-1][0] == x[0]:
+                    merged[-1] = (x[0], merged[-1][1] + x[1])
+                else:
+                    merged.append(x)
+            if len(merged) == 1:
+                return merged[0]
+            return ("cat", tuple(merged))
         if isinstance(op, ast.Sub):
             return lin_add(a, b, -1)
         if isinstance(op, ast.Mult):
@@ -1284,6 +1343,36 @@ class Norm:
                 return fi, not fi.is_staticmethod
         return None
 
+    def class_constant(self, cls_q: str, attr: str) -> Optional[Term]:
+        """`self.NAME` / `Cls.NAME` where NAME is a class-level constant that no method ever assigns on an instance or the class"""
+        cache = self.__dict__.setdefault("_class_consts", {})
+        k_ = (cls_q, attr)
+        if k_ in cache:
+            return cache[k_]
+        out: Optional[Term] = None
+        for cq in self.repo.mro(cls_q):
+            ci = self.repo.classes.get(cq)
+            if ci is None:
+                break
+            if attr in ci.methods:
+                break
+            if attr in ci.class_attrs:
+                try:
+                    v = self.repo.fold(ci.class_attrs[attr], ci.module, None, {})
+                except Exception:
+                    break
+                if isinstance(v, (int, bytes, str, bool)) or v is None:
+                    assigned = False
+                    for m_ in self.repo.modules.values():
+                        for n in ast.walk(m_.tree):
+                            if isinstance(n, ast.Attribute) and n.attr == attr and isinstance(n.ctx, (ast.Store, ast.Del)):
+                                assigned = True
+                    if not assigned:
+                        out = C(v)
+                break
+        cache[k_] = out
+        return out
+
     def namedtuple_fields(self, q: str) -> Optional[List[str]]:
         """field names of a module-level `X = namedtuple('X', [...])`"""
         modname, _, name = q.rpartition(".")
@@ -1334,6 +1423,10 @@ class Norm:
                 args, kwargs = list(args) + [kw[n] for n in fields[len(args):]], []
         if f[0] == "g" and f[1].startswith("builtin:"):
             b = f[1][8:]
+            if b in ("list", "sorted", "set", "tuple", "frozenset", "iter", "len", "any", "all") and len(args) >= 1:
+                a0 = args[0]
+                if a0[0] == "call" and a0[1][0] == "a" and a0[1][2] == "keys" and not a0[2] and not a0[3]:
+                    args = [a0[1][1]] + list(args[1:])      # iterating a mapping yields its keys
             if b in ("min", "max") and len(args) >= 2 and not kwargs:
                 return self.mk_minmax(b, args)
             if b == "pow" and len(args) == 2:
